@@ -6,7 +6,6 @@ import (
 	"encoding/hex"
 	"fmt"
 	"strings"
-	"time"
 
 	"github.com/SaoNetwork/sao/x/did/types"
 	"github.com/cosmos/cosmos-sdk/crypto/keys/secp256k1"
@@ -33,7 +32,7 @@ func (k msgServer) Binding(goCtx context.Context, msg *types.MsgBinding) (*types
 		return nil, types.ErrInconsistentDid
 	}
 
-	now := time.Now().Unix()
+	now := ctx.BlockTime().Unix()
 	if proof.Timestamp+EXPIRE_DURATION < uint64(now) {
 		logger.Error("timestamp is too old", "proof.Timestamp", proof.Timestamp, "now", now)
 		return nil, types.ErrOutOfDate
